@@ -1156,22 +1156,25 @@ def drive_pass(ctx, case, seconds=10.0):
         info["rejected"].append(e)
         return info
     ops = [o for o in module.walk() if o.name == "dart.operation"]
-    if len(ops) != 1:
+    if len(ops) < 1 or (len(ops) != 1 and not case.get("multi")):
         info["generator_invalid"] = True
         return info
-    try:
-        bounds, mats = operation_box(ops[0])
-    except Exception as e:
-        info["generator_invalid"] = True
-        info["rejected"].append(e)
-        return info
-    if any(b is None for b in bounds) or ("bounds" in case and list(case["bounds"]) != bounds):
-        info["generator_invalid"] = True
-        return info
-    if n_points(bounds) > MAX_POINTS:
-        ST.bump("out_of_domain:pass:box-too-large")
-        return info
-    before = img(bounds, [np.array(A, dtype=np.int64).reshape(len(A), len(bounds)) for A, _ in mats], [np.array(b, dtype=np.int64) for _, b in mats])
+    befores = []
+    for k, op in enumerate(ops):
+        try:
+            bounds, mats = operation_box(op)
+        except Exception as e:
+            info["generator_invalid"] = True
+            info["rejected"].append(e)
+            return info
+        want = case["multi"][k] if case.get("multi") else case.get("bounds")
+        if any(b is None for b in bounds) or (want is not None and list(want) != bounds):
+            info["generator_invalid"] = True
+            return info
+        if n_points(bounds) > MAX_POINTS:
+            ST.bump("out_of_domain:pass:box-too-large")
+            return info
+        befores.append((bounds, mats, img(bounds, [np.array(A, dtype=np.int64).reshape(len(A), len(bounds)) for A, _ in mats], [np.array(b, dtype=np.int64) for _, b in mats])))
     spec = f"insert-accfg-op{{accelerator={case['accelerator']}}},dart-scheduler"
     try:
         run_passes_limited(ctx, module, spec, seconds)
@@ -1187,32 +1190,36 @@ def drive_pass(ctx, case, seconds=10.0):
         ST.search_depth = 0
         ST.suppress = 0
     outs = [o for o in module.walk() if o.name == "dart.schedule"]
-    if len(outs) != 1:
+    if len(outs) != len(ops):
         ST.bump("pass_left_operation_unscheduled")
         return info
     info["emitted"] = True
-    so = outs[0]
-    try:
-        ob = [int(a.value.data) for a in so.bounds.data]
-        omats = [affine_map_matrix(attr.data) for attr in so.patterns.data]
-        if n_points(ob) > 4 * MAX_POINTS:
-            ST.bump("out_of_domain:pass:emitted-box-too-large")
+    if len(ops) > 1:
+        ST.bump("eval:pass_modules_with_several_operations")
+    for (bounds, mats, before), so in zip(befores, outs):
+        try:
+            ob = [int(a.value.data) for a in so.bounds.data]
+            omats = [affine_map_matrix(attr.data) for attr in so.patterns.data]
+            if n_points(ob) > 4 * MAX_POINTS:
+                ST.bump("out_of_domain:pass:emitted-box-too-large")
+                return info
+            after = img(ob, [np.array(A, dtype=np.int64).reshape(len(A), len(ob)) for A, _ in omats], [np.array(b, dtype=np.int64) for _, b in omats])
+        except Exception as e:
+            ST.bump("oracle_error:pass:" + type(e).__name__)
             return info
-        after = img(ob, [np.array(A, dtype=np.int64).reshape(len(A), len(ob)) for A, _ in omats], [np.array(b, dtype=np.int64) for _, b in omats])
-    except Exception as e:
-        ST.bump("oracle_error:pass:" + type(e).__name__)
-        return info
-    info["compared"] = True
-    info["n_out"] = len(ob)
-    info["changed"] = len(ob) != len(bounds) or any(a[0] != b[0] for a, b in zip(mats, omats))
-    ST.bump("eval:pass_img")
-    if not img_equal(before, after):
-        ST.violation(
-            "pass-changes-iteration-space",
-            f"dart-scheduler: dart.operation bounds {bounds} patterns {[m[0] for m in mats]} offsets {[m[1] for m in mats]} ({img_describe(before)}) "
-            f"became dart.schedule bounds {ob} patterns {[m[0] for m in omats]} offsets {[m[1] for m in omats]} ({img_describe(after)})",
-            "dart-scheduler",
-        )
+        info["compared"] = True
+        info["n_out"] = len(ob)
+        info["changed"] = info["changed"] or len(ob) != len(bounds) or any(a[0] != b[0] for a, b in zip(mats, omats))
+        ST.bump("eval:pass_img")
+        if not img_equal(before, after):
+            ST.violation(
+                "pass-changes-iteration-space",
+                f"dart-scheduler: dart.operation bounds {bounds} patterns {[m[0] for m in mats]} offsets {[m[1] for m in mats]} ({img_describe(before)}) "
+                f"became dart.schedule bounds {ob} patterns {[m[0] for m in omats]} offsets {[m[1] for m in omats]} ({img_describe(after)})"
+                + (f" [operation {outs.index(so) + 1} of {len(ops)} in one module]" if len(ops) > 1 else ""),
+                "dart-scheduler",
+            )
+            break
     return info
 
 
